@@ -590,3 +590,13 @@ def run(ck, prog):
 
 
 EXPLANATION += (' transform: every to_category() of a cell sits on the true edge of is_valid() of the same value (found and fixed: unseen non-integer / negative / NaN / too large values were saturated onto seen categories).')
+
+
+# ------------------------------------------------------------------ generic: `while counter < bound` loops advance their counter
+_run_pre_progress = run
+
+
+def run(ck, prog):
+    _run_pre_progress(ck, prog)
+    from sa import progress
+    progress.run_rule(ck, prog, set(DIMENSION_FILES))
